@@ -307,6 +307,23 @@ class Recorder:
             return w
         self._patch(BB.BADS, "_eval_improvement_", mk_improve)
 
+        def mk_sto(orig):
+            # stochastic-MADS success rule (options['stobads']): log the arguments and the verdict
+            def w(b, f_base, f_new, s_base, s_new, frame_size, gamma_uncertain_interval=None):
+                r = orig(b, f_base, f_new, s_base, s_new, frame_size, gamma_uncertain_interval)
+                try:
+                    rec.emit("StoSuccess", site=rec.site(), f_base=_c(f_base), f_new=_c(f_new), s_base=_c(s_base),
+                             s_new=_c(s_new), frame=float(frame_size), k=int(b.mesh_size_integer),
+                             gamma=None if gamma_uncertain_interval is None else float(gamma_uncertain_interval),
+                             power=float(b.options["stobads_frame_size_scaling_power"]), r=_c(r))
+                except Exception:
+                    rec.emit("StoSuccess", site=rec.site(), f_base=None, f_new=None, s_base=None, s_new=None,
+                             frame=None, k=None, gamma=None, power=None, r=_c(r))
+                return r
+            return w
+        if hasattr(BB.BADS, "_sto_success_improvement_"):
+            self._patch(BB.BADS, "_sto_success_improvement_", mk_sto)
+
         def mk_reeval(orig):
             def w(b, gp):
                 rec.stack.append("reeval")
@@ -634,7 +651,7 @@ _OPT_KEYS = ["max_fun_evals", "max_iter", "tol_mesh", "tol_fun", "tol_noise", "t
              "tol_improvement", "forcing_exponent", "sloppy_improvement", "fun_eval_start",
              "n_train_min", "n_train_max", "buffer_ntrain", "gp_radius", "init_mesh_size_integer",
              "uncertainty_handling", "specify_target_noise", "noise_size", "cache_size", "min_refit_time",
-             "improvement_quantile", "force_poll_mesh", "stobads", "hedge_gamma", "random_seed",
+             "improvement_quantile", "force_poll_mesh", "stobads", "opp_stobads", "hedge_gamma", "random_seed",
              "remove_points_after_tries", "search_scale_success", "search_scale_incremental", "search_scale_failure",
              "use_effective_radius", "uncertain_incumbent", "nonlinear_scaling"]
 
